@@ -102,6 +102,11 @@ func CheckSchema(s *model.Schema) []string {
 					bad("%s: @%s(%s) value can not be coerced: %v", where, u.Name, a.Name, err)
 				}
 			}
+			for _, x := range d.Args {
+				if x.Type.NonNull && !x.HasDefault && !seenA[x.Name] {
+					bad("%s: @%s is used without its required argument %s", where, u.Name, x.Name)
+				}
+			}
 		}
 	}
 	inputPos := func(where string, t *model.TypeRef) {
